@@ -89,7 +89,7 @@ VHstoredatam(HFILEID f, const char *field, const uint8 *buf, int32 n, int32 data
              const char *vsclass, int32 order)
 {
     int32 ref;
-    int32 vs;
+    int32 vs        = FAIL;
     int32 ret_value = SUCCEED;
 
     if ((vs = VSattach(f, -1, "w")) == FAIL)
@@ -117,6 +117,16 @@ VHstoredatam(HFILEID f, const char *field, const uint8 *buf, int32 n, int32 data
     ret_value = ((int32)ref);
 
 done:
+    if (ret_value == FAIL && vs != FAIL) {
+        /* do not leave the half-made Vdata attached (the file could no longer be
+           closed) nor behind in the file */
+        int32 bad_ref = VSQueryref(vs);
+
+        VSdetach(vs);
+        if (bad_ref != FAIL)
+            VSdelete(f, bad_ref);
+    }
+
     return ret_value;
 } /* VHstoredatam */
 
